@@ -166,7 +166,7 @@ def target_app(log):
 def scenario_app(static_dir, variant, tlog):
     from clastic import Application, Response, POST, RerouteWSGI, render_basic
     from clastic.render import render_json
-    from clastic.errors import NotFound, Forbidden, HTTPException, BadRequest
+    from clastic.errors import NotFound, Forbidden, HTTPException, BadRequest, ServiceUnavailable, InternalServerError, BadGateway
     from clastic.static import StaticApplication
     from clastic.meta import MetaApplication
     from clastic.middleware.compress import GzipMiddleware
@@ -191,6 +191,9 @@ def scenario_app(static_dir, variant, tlog):
     def reroute_raise():
         raise RerouteWSGI(target)
 
+    def raise503():
+        raise ServiceUnavailable()          # a 5xx raised by application code (no captured exception behind it)
+
     def raise_bare():
         raise HTTPException('raised, without a code of its own')
     routes = [('/resp', lambda: Response(b'hello world', mimetype='text/plain')),
@@ -202,6 +205,7 @@ def scenario_app(static_dir, variant, tlog):
               ('/branch/', lambda: Response('branch')),
               ('/dir/<name>/', lambda name: Response('dir')),
               # errors built in unusual but legitimate ways: no status code of its own, a message of the application's
+              ('/raise503', raise503), ('/ret500', lambda: InternalServerError()), ('/ret502', lambda: BadGateway('upstream')),
               ('/bare_exc', lambda: HTTPException('an error without a code of its own')),
               ('/raise_bare_exc', raise_bare),
               ('/own_message', lambda: BadRequest('detail', message=u'Please try again \u2603')),
@@ -228,7 +232,7 @@ PATHS = ['/resp', '/empty', '/stream', '/ctx', '/ctx?format=json', '/json', '/te
          '/static/missing', '/static/../x', '/_meta/', '/_meta/json/', '/reroute', '/reroute_raise', '/unknown/url', '/',
          # slash redirects whose Location has to carry unusual decoded characters (header values must stay valid)
          '/dir/plain', '/dir/a%20b', '/dir/%01x', '/dir/x%7Fy', '/dir/caf%C3%A9', '/dir/q%3Fr%23s', '/branch?x=%0Ay',
-         '/bare_exc', '/raise_bare_exc', '/own_message',
+         '/bare_exc', '/raise_bare_exc', '/own_message', '/raise503', '/ret500', '/ret502',
          '/item/5', '/item/+ 5', '/item/abc', '/ratio/- .5/1/+ 2', '/ratio/1e5/1/2', '/item/' + '9' * 5000]
 HEADERS = [{}, {'Accept': 'text/html'}, {'Accept': 'application/json'}, {'Accept-Encoding': 'gzip'},
            {'Accept': 'application/xml', 'Accept-Encoding': 'gzip, deflate'}]
